@@ -970,7 +970,69 @@ func overlapCase(r *rand.Rand, i int) {
 	}
 }
 
+// manyRunsCase: a sparse volume is as long as its body is ragged - tens of thousands of runs are ordinary.  The
+// streamed readers must hand back every run of a stream of n runs, for n around the sizes at which an implementation
+// could start to allocate or read in pieces.
+func manyRunsCase(n int) {
+	b := make([]byte, 16*n)
+	for i := 0; i < n; i++ {
+		x, y, z, l := int32(3*(i%700))-1000, int32((i/700)%900)-7, int32(i/(700*900))+5, int32(1+i%2)
+		for f, v := range []int32{x, y, z, l} {
+			binary.LittleEndian.PutUint32(b[16*i+4*f:], uint32(v))
+		}
+	}
+	desc := fmt.Sprintf("stream of %d runs", n)
+	p.Begin(desc)
+	same := func(rl dvid.RLEs) string {
+		if len(rl) != n {
+			return fmt.Sprintf("%d runs read back", len(rl))
+		}
+		out, err := rl.MarshalBinary()
+		if err != nil || !bytes.Equal(out, b) {
+			return fmt.Sprintf("the %d runs read back differ from the stream (err=%v)", len(rl), err)
+		}
+		return ""
+	}
+	var back dvid.RLEs
+	var err error
+	p.Case(fmt.Sprintf("manyruns|reader|%d", n), true)
+	if pm := probe.Try(func() { err = back.UnmarshalBinaryReader(bytes.NewReader(b), uint32(n)) }); pm != "" || err != nil {
+		rleViolation("binary:reader-roundtrip:many-runs", fmt.Sprintf("%s: UnmarshalBinaryReader err=%v panic=%q", desc, err, pm), map[string]interface{}{"runs": n})
+	} else if d := same(back); d != "" {
+		rleViolation("binary:reader-roundtrip:many-runs", fmt.Sprintf("%s: UnmarshalBinaryReader: %s, no error", desc, d), map[string]interface{}{"runs": n})
+	}
+	var st bytes.Buffer
+	st.WriteByte(dvid.EncodingBinary)
+	st.Write([]byte{3, 0, 0})
+	binary.Write(&st, binary.LittleEndian, uint32(0))
+	binary.Write(&st, binary.LittleEndian, uint32(n))
+	st.Write(b)
+	var rd dvid.RLEs
+	p.Case(fmt.Sprintf("manyruns|ReadRLEs|%d", n), true)
+	if pm := probe.Try(func() { rd, err = dvid.ReadRLEs(bytes.NewReader(st.Bytes())) }); pm != "" || err != nil {
+		rleViolation("binary:ReadRLEs:many-runs", fmt.Sprintf("%s: ReadRLEs err=%v panic=%q", desc, err, pm), map[string]interface{}{"runs": n})
+	} else if d := same(rd); d != "" {
+		rleViolation("binary:ReadRLEs:many-runs", fmt.Sprintf("%s: ReadRLEs: %s, no error", desc, d), map[string]interface{}{"runs": n})
+	}
+	var whole dvid.RLEs
+	p.Case(fmt.Sprintf("manyruns|UnmarshalBinary|%d", n), true)
+	if pm := probe.Try(func() { err = whole.UnmarshalBinary(b) }); pm != "" || err != nil {
+		rleViolation("binary:roundtrip:many-runs", fmt.Sprintf("%s: UnmarshalBinary err=%v panic=%q", desc, err, pm), map[string]interface{}{"runs": n})
+	} else if d := same(whole); d != "" {
+		rleViolation("binary:roundtrip:many-runs", fmt.Sprintf("%s: UnmarshalBinary: %s, no error", desc, d), map[string]interface{}{"runs": n})
+	}
+	p.Count("many_run_streams", 1)
+}
+
 func sectionRLE() {
+	for _, n := range []int{4095, 4096, 4097, 65535, 65536, 65537, 100003} {
+		manyRunsCase(n)
+	}
+	if !p.Quick() {
+		for _, n := range []int{1<<17 + 1, 1 << 20, 1<<20 + 1} {
+			manyRunsCase(n)
+		}
+	}
 	r := rand.New(rand.NewSource(p.Seed*11 + 3))
 	n := p.N(6000, 200000)
 	for i := 0; i < n; i++ {
